@@ -20,10 +20,96 @@ MODELS = ["KleinNishina", "LivermorePE", "BetheHeitler", "EPlusGG", "MollerBhabh
 TECHNIQUE = ('null-pointer discipline (test, failure edge must-return, use dominated by non-null edge) on the CFG of every interactor; booking-dominates-reset rule; reachability between bookings of the deposition (single booking per path); argument audit of every momentum-conservation helper call site; cut/particle pairing by guard provenance')
 
 UNITS = ["src/celeritas/em/model/%sModel.cc" % m for m in MODELS] + [
-    "src/celeritas/neutron/model/ChipsNeutronElasticModel.cc"]
+    "src/celeritas/neutron/model/ChipsNeutronElasticModel.cc",
+    "src/celeritas/em/params/AtomicRelaxationParams.cc"]
+
+
+def relax_cut_index(db, cx):
+    """C04.12: the per-element production-cut tables that bound the relaxation cascade
+    (AtomicRelaxationParams constructor) are indexed by *global* element ids: the size of the
+    LivermorePE secondary block is computed from them (seeded change c04e indexed them by the
+    position of the element inside its material)."""
+    fs = db.get(C + "AtomicRelaxationParams::AtomicRelaxationParams")
+    cx.require(fs, "anchor AtomicRelaxationParams constructor not found")
+    n = 0
+    for f in fs:
+        defs = {}
+        for (_b, _i, e) in f.events("def"):
+            if e.get("var"):
+                defs.setdefault(e["var"], []).append(e)
+        # local tables sized by the global number of elements
+        sizes = set(v for v, ds in defs.items() for d in ds
+                    if C + "MaterialParams::num_elements" in d.get("calls", []))
+        tables = {}
+        for v, ds in defs.items():
+            for d in ds:
+                if d.get("kind") == "decl" and "std::vector::vector" in d.get("calls", []) \
+                        and set(local_refs(d.get("refs", []))) & sizes:
+                    tables[v] = sorted(set(local_refs(d.get("refs", []))) & sizes)[0]
+        cx.require(tables, "AtomicRelaxationParams: per-element cut tables not found")
+
+        def origin(var, pos, depth=0):
+            """('element_id',) | ('range', size var) | ('other', text): where the value of
+            `var` at position pos comes from (reaching definitions, so that two loops that
+            re-use a variable name are told apart)"""
+            if depth > 5:
+                return ("other", var)
+            rds = [(b, i, d) for (b, i, d) in f.reaching_defs(var, pos) if d["e"] == "def"]
+            res = []
+            for (b, i, d) in rds:
+                if C + "MaterialView::element_id" in d.get("calls", []):
+                    res.append(("element_id",))
+                    continue
+                rhs = d.get("rhs") or ""
+                if rhs.startswith("* __begin"):
+                    got = ("other", rhs)
+                    for (b2, i2, d2) in f.reaching_defs(d["refs"][0], (b, i)):
+                        if d2.get("kind") != "decl":
+                            continue
+                        for r in d2.get("refs", []):
+                            for (_b3, _i3, d3) in f.reaching_defs(r, (b2, i2)):
+                                if C + "range" in d3.get("calls", []):
+                                    lr = set(local_refs(d3.get("refs", [])))
+                                    got = ("range", sorted(lr & sizes)[0]) if (lr & sizes and not (lr - sizes)) \
+                                        else ("other", d3.get("rhs"))
+                    res.append(got)
+                    continue
+                lr = [r for r in sorted(local_refs(d.get("refs", []))) if r != var]
+                if len(lr) == 1 and not [c for c in d.get("calls", []) if not c.startswith(C + "OpaqueId")]:
+                    res.append(origin(lr[0], (b, i), depth + 1))
+                else:
+                    res.append(("other", rhs))
+            if not res:
+                return ("other", var)
+            bad = [r for r in res if r[0] == "other"]
+            if bad:
+                return bad[0]
+            return res[0] if len(set(res)) == 1 else ("other", "mixed: %s" % sorted(set(res)))
+        for (b_, i_, e) in f.events("call"):
+            if e["callee"] != "std::vector::operator[]":
+                continue
+            recv = (e.get("recv") or {}).get("path", {})
+            tab = recv.get("root", "")[2:] if recv.get("root", "").startswith("l:") and not recv.get("chain") else None
+            if tab not in tables:
+                continue
+            idx = sorted(local_refs(e["args"][0].get("refs", [])))
+            o = origin(idx[0], (b_, i_)) if len(idx) == 1 else ("other", e["args"][0].get("t"))
+            ok = o[0] == "element_id" or (o[0] == "range" and o[1] == tables[tab])
+            n += 1
+            cx.ob("C04.12-relax-cut-index", "%s[%s] @%s is indexed by a global element id" % (
+                tab, e["args"][0].get("t"), short(e["loc"]).split(":", 1)[1]), ok,
+                "index comes from %s" % ("MaterialView::element_id" if o[0] == "element_id" else
+                                         "range(%s)" % o[1] if o[0] == "range" else "`%s`" % o[1]),
+                short(e["loc"]),
+                why="the minimum production cuts per element bound the number of relaxation "
+                    "secondaries (max_secondary); with a table indexed by the component position the "
+                    "bound is computed from another element's cuts, LivermorePE reserves too few "
+                    "slots and (the size check being a debug assertion) writes past its allocation")
+    cx.floor("relaxation cut table subscripts", n, 6)
 
 
 def run(db, cx):
+    relax_cut_index(db, cx)
     # 1. K6
     shared.null_discipline(db, cx, "C04.1-alloc", 10)
 
